@@ -22,6 +22,15 @@ fn c11_case(s: &[u8], l: &mut Local) {
     }
 }
 
+/// FIR entries come in the order of a per-instance hash map: two builder instances may differ in it
+fn has_fir(ms: &[Member]) -> bool {
+    ms.iter().any(|m| match m {
+        Member::Plain(p) | Member::Wrapped(p) => matches!(p, Pkt::Fb { fci: Fci::Fir(v), .. } if v.len() > 1),
+        Member::Nested(inner) => has_fir(inner),
+        _ => false,
+    })
+}
+
 fn c11_walk(s: &[u8], l: &mut Local, perturbed: bool) {
     l.evals += 1;
     l.states += 1;
@@ -426,13 +435,27 @@ pub fn c14_case(ms: &[Member], l: &mut Local) {
     }
     // the same list added to a compound builder that is queried (size + scratch write) after every add_packet:
     // what was asked earlier must not change the answer for the finished list
-    {
+    // ... nor may it matter where the queries fell: after every add_packet, after all but the last one of each
+    // (nested) builder, only at the beginning
+    for mode in [1u8, 2, 3] {
         l.transitions += 1;
-        let probed = build::compound_builder_p(ms, true);
+        let probed = build::compound_builder_pm(ms, mode);
         let size_p = probed.calculate_size().map_err(build::werr);
         if size_p != size {
-            l.violation("compound-size-depends-on-earlier-queries", show, || format!("calculate_size() = {:?}, but {:?} when the builder was queried after every add_packet", size, size_p));
+            l.violation("compound-size-depends-on-earlier-queries", show, || format!("calculate_size() = {:?}, but {:?} when the builder was queried {}", size, size_p, ["", "after every add_packet", "after every add_packet but the last of each builder", "only before and after its first add_packet"][mode as usize]));
             return;
+        }
+        if let Ok(n) = size_p {
+            if n <= 4096 {
+                let mut b1 = crate::engine::place::OutBuf::new(n, |_| 0xA5);
+                let mut b2 = crate::engine::place::OutBuf::new(n, |_| 0xA5);
+                let w1 = build::DynW(&probed).write_into(&mut b1).map_err(build::werr);
+                let w2 = build::DynW(&cb).write_into(&mut b2).map_err(build::werr);
+                if w1 != w2 || (!has_fir(ms) && b1[..] != b2[..]) {
+                    l.violation("compound-bytes-depend-on-earlier-queries", show, || format!("write_into = {:?} / {:?}, bytes equal: {}", w1, w2, b1[..] == b2[..]));
+                    return;
+                }
+            }
         }
     }
     let n = match size {
@@ -585,6 +608,21 @@ pub fn c14(ctx: &mut Ctx) {
         let sp = targets::many_member_space();
         let get = &sp.get;
         ctx.bound("many members", "lists of {5,7,8,9,15..18,31..34,63,64,65,100} members of mixed sizes in two size patterns; last member padded or not; a nested [third-party Some(0) member, padded BYE] in the middle");
+        ctx.run_space(&sp.name, sp.len, |idx, l| {
+            if let Target::Compound(ms) = get(idx) {
+                match guard::catch(|| c14_case(&ms, l)) {
+                    Ok(()) => {}
+                    Err(pi) => l.subject_panic("compound", &pi, || format!("{} members", ms.len())),
+                }
+            }
+        });
+    }
+    // every member count
+    {
+        let max = ctx.tier.pick(1200usize, 4096);
+        let sp = targets::every_member_count_space(max);
+        let get = &sp.get;
+        ctx.bound("every member count", format!("compounds of every member count 1..={}: flat, flat with the last member padded, nested and followed by a BYE", max));
         ctx.run_space(&sp.name, sp.len, |idx, l| {
             if let Target::Compound(ms) = get(idx) {
                 match guard::catch(|| c14_case(&ms, l)) {
